@@ -62,4 +62,18 @@ CHECKS.update({
         note="V::from_str is a parameter; the White_Space set of str::trim is transcribed; one defect found and fixed (leading blank in a plural name)",
         technique="Lean 4 proof (decision logic of the parser + kernel-decided label tables) + correspondence check"),
 })
+CHECKS.update({
+    'C13': dict(
+        text="Lean 4 theorems, parametric in any data format (ser : V → Tok, de : Tok → Option V): a quantity serializes to what its stored value serializes to, deserializes/rejects exactly as the storage type does, and round-trips whenever the storage type does; dimension and base units are phantom. Correspondence: 11 storage types × 5 quantities/base sets × JSON text and the serde_json::Value tree format, serialization and deserialization (accept/reject/value) compared with the storage type's own",
+        note="thin theorems over a transcription of the two serde impls; two concrete formats stand for 'every data format'",
+        technique="Lean 4 proof (parametric, thin) + correspondence check against the storage type's own (de)serialization"),
+    'C14': dict(
+        text="Lean 4 theorems about the transcription of both TryFrom impls: NegativeDuration iff strictly negative (−0.0 and NaN are not; floats and integers), NaN/inf give Overflow, Duration::new's carry cannot overflow for any float below 2^64; F10 proved as a theorem (integer storage, base unit longer than a second: always panics); the full accuracy statement is REFUTED by a kernel-evaluated witness (F4: 5 s in minute base → 5.999999999 s). Correspondence: bit-exact against the model over f32/f64 × five time base units and i32/i64/u32/u64 × three, with classification and accuracy oracles; known findings F4, F10, F11",
+        note="accuracy holds (and is checked by the oracle) when the time base unit is the second; Duration::new and num-traits casts are transcribed",
+        technique="Lean 4 proof (classification theorems, refutation witness) + bit-exact correspondence check"),
+    'C18': dict(
+        text="Lean 4 theorems: trig/hyperbolic functions are the storage type's function of to_base(x) with base factor 1 (angle, ratio, solid angle are dimensionless: kernel-checked on the regenerated table); inverse functions/exp/log/atan2 re-wrap with radian/ratio whose float coefficient is exactly 1.0 (kernel-evaluated), hence bit-identical results for every canonical value; the constants HALF_TURN = π rad = 180° = ½ r, FULL_TURN = 1 r = 360°, SPHERE = 4π sr = 1 sp are closed soft-float computations evaluated by the kernel for f32 and f64. Correspondence: every function × every angle/ratio unit × edge values, atan2 on like quantities in five base sets, constant read-backs",
+        note="libm functions are parameters (oracle: bit-equality with the storage type's function of the stored value)",
+        technique="Lean 4 proof (kernel-evaluated constants and identity units + forwarding) + correspondence check"),
+})
 NOT_APPLICABLE = {}
